@@ -55,7 +55,7 @@ def _observe(job):
     ncol, relations, cfg, seed = job
     from copulas.multivariate import GaussianMultivariate
     rs = np.random.RandomState(seed)
-    df = table(ncol, relations, rs, n=1234 if seed % 11 == 5 else 80, labels='int' if seed % 5 == 2 else 'str')
+    df = table(ncol, relations, rs, n=1234 if seed % 11 == 5 else 80, labels='int' if seed % 5 == 2 else 'str', scale=250.0 if seed % 9 == 4 else 1.0)
     cols = list(df.columns)
     rec = {'kind': 'density', 'err': '', 'S': S, 'rep': [], 'ref': [], 'logp': [], 'logref': [], 'chains': [], 'crep': [], 'cref': [],
            'ctol': 20000 if ncol >= 3 else 200, 'desc': '%d|%s|%s' % (ncol, ','.join(relations[1:]), cfg)}
